@@ -292,10 +292,24 @@ def part_groups(ck, rng):
             return any(convex_overlap(hulls[i], hulls[j]) for i in range(k) for j in range(i + 1, k))
 
         def classify():
-            # K2: group catalog built by multi_union AND some member hull has <= 4 vertices AND members overlap
-            if exact_path and any(m.nhull is not None and m.nhull <= 4 for m in members) and overlap_info():
+            # K2: group catalog built by multi_union AND members overlap AND (some member hull has <= 4 vertices OR
+            # the library itself, called directly on the member polygons, returns an inverted polygon - one that
+            # contains the point antipodal to the sources)
+            if not (exact_path and overlap_info()):
+                return None
+            if any(m.nhull is not None and m.nhull <= 4 for m in members):
                 return ('WCSGroupCatalog via SphericalPolygon.multi_union; member hull vertex counts %s; member '
                         'hulls overlap' % [m.nhull for m in members])
+            try:
+                from spherical_geometry.polygon import SphericalPolygon
+                u_ = SphericalPolygon.multi_union([m.im.polygon for m in members])
+                anti = -centroid(np.concatenate([m.v for m in members], axis=0))
+                if contains(u_, anti) and all(not contains(m.im.polygon, anti) for m in members):
+                    return ('SphericalPolygon.multi_union called directly on the member polygons returns an inverted '
+                            'polygon (contains the antipode of the sources, which no member polygon contains); member '
+                            'hull vertex counts %s; member hulls overlap' % [m.nhull for m in members])
+            except Exception:       # noqa: BLE001
+                pass
             return None
 
         rp = {'object': 'WCSGroupCatalog', 'bb_policy': bp, 'members': [m.describe() for m in members],
